@@ -5,6 +5,7 @@ import (
 	"sort"
 	"time"
 
+	"github.com/quickfixgo/quickfix/verifsim/simsync"
 	"verifsim/wire"
 )
 
@@ -419,11 +420,109 @@ func runC20(env *Env, tier string) {
 			}
 			m.closed = true
 		}
+	} else if !m.closed && !m.expectClose && !env.Failed() && p.Connected() && !gapOpen && !m.pending && ch.Chance("busyapp", 1, 4) {
+		c20BusyApplication(env, s, m, feed)
 	}
 	if m.closed {
 		env.Nontrivial = true
 	}
 	} // connections
+}
+
+// c20BusyApplication: a burst of application messages arrives in one read while the application takes its time
+// with each of them (0.3 to 2 intervals per callback), then the counterparty falls silent for good. While the
+// application holds the session goroutine the engine cannot meet any keep-alive obligation, and the timers that
+// fall due in the meantime are all waiting when the callback returns - together with the next message of the
+// burst. Which of several ready sources the session loop takes next is Go's (random) choice in production; here
+// the simulator decides it (select gate, one fixed polling order per run). What the statement still promises is
+// judged from the moment the application is done (E): the peer has been silent since before E, so a TestRequest
+// and, 1.2 intervals later, the disconnect with OnLogout are due by E + 2.4 intervals at the latest. What the
+// engine does WHILE the application is busy (and right after, with stale timer events) is not judged.
+func c20BusyApplication(env *Env, s *Sut, m *kaMonitor, feed func()) {
+	ch, p := env.Ch, s.P
+	feed()
+	if m.closed || env.Failed() || !s.E.App.LoggedOn() {
+		return
+	}
+	orders := [][]int{{3, 2, 1, 4, 0}, {2, 3, 1, 4, 0}, {4, 3, 2, 1, 0}, {2, 4, 3, 1, 0}}
+	order := orders[ch.Choose("busyorder", len(orders))]
+	n := 2 + ch.Choose("busyburst", 2)
+	tenths := []int{3, 7, 13, 16, 20, 0}
+	var plan []time.Duration
+	var burst []byte
+	desc := ""
+	for i := 0; i < n; i++ {
+		d := time.Duration(tenths[ch.Choose("busytenths", len(tenths))]) * m.hb / 10
+		if d == 0 {
+			d = time.Millisecond
+		}
+		plan = append(plan, d)
+		desc += fmt.Sprintf(" %v", d)
+		b, _ := p.Build("D", AppBody(p.NextID()), MsgOpt{})
+		mm, _ := wire.Scan(b)
+		sm := SentMsg{Msg: mm, Conn: p.Conn, At: time.Now()}
+		sm.N = env.Rec(fmt.Sprintf("peer>:%d", p.Conn), "peer>", string(b), true)
+		p.Sent = append(p.Sent, sm)
+		burst = append(burst, b...)
+	}
+	env.Note("busy application: burst of %d in one read, callbacks take%s, select order %v; then silence", n, desc, order)
+	env.Stat("fault_busy_application_burst")
+	_, done0, _ := s.E.App.SlowLeft()
+	s.E.App.mu.Lock()
+	s.E.App.SlowSeq = plan
+	s.E.App.mu.Unlock()
+	simsync.SetSelectOrder(order)
+	env.OnCleanup(func() { simsync.SetSelectOrder(nil) })
+	p.EP.Feed(burst)
+	env.Settle()
+	// let the application work through the burst (or the engine end the connection, whichever comes first)
+	limit := time.Now().Add(time.Duration(n)*2*m.hb + 3*m.hb)
+	for time.Now().Before(limit) && !p.EP.IsClosed() {
+		if _, done, _ := s.E.App.SlowLeft(); done-done0 >= n {
+			break
+		}
+		env.Advance(m.hb / 10)
+	}
+	left, done, E := s.E.App.SlowLeft()
+	s.E.App.mu.Lock()
+	s.E.App.SlowSeq = nil
+	s.E.App.mu.Unlock()
+	if done-done0 < n && !p.EP.IsClosed() && s.E.App.LoggedOn() {
+		simsync.SetSelectOrder(nil)
+		env.Violate("C20/busy-application/burst-not-delivered", "only %d of %d in-sequence application messages of the burst reached the application within %v (%d callbacks not started), session still logged on", done-done0, n, time.Duration(n)*2*m.hb+3*m.hb, left)
+		return
+	}
+	if done-done0 >= n {
+		env.Stat("probe_busy_application_burst_done")
+	}
+	if E.IsZero() {
+		E = time.Now()
+	}
+	deadline := E.Add(time.Duration(2.4*float64(m.hb)) + 2*m.slack)
+	for s.E.App.LoggedOn() && time.Now().Before(deadline.Add(m.hb/4)) {
+		env.Advance(m.hb / 4)
+	}
+	notified := !s.E.App.LoggedOn()
+	for k := 0; k < 60 && notified && !p.EP.IsClosed(); k++ {
+		env.Advance(500 * time.Millisecond)
+	}
+	simsync.SetSelectOrder(nil)
+	p.Collect()
+	trs := 0
+	for _, x := range p.Recv {
+		if x.Type() == "1" && x.At.After(E.Add(-time.Millisecond)) {
+			trs++
+		}
+	}
+	env.Note("after the burst: application done at +%v, notified=%v closed=%v, TestRequests since then %d", E.Sub(env.T0), notified, p.EP.IsClosed(), trs)
+	if !notified {
+		env.Violate("C20/dead-peer-not-disconnected/after-busy-application", "the application finished its callbacks %v ago and the counterparty has been silent since before that (interval %v, select order %v), but the session is still logged on", time.Since(E), m.hb, order)
+	} else if !p.EP.IsClosed() {
+		env.Violate("C20/connection-left-open", "the session has ended (OnLogout) but the connection is still open 30 s later")
+	} else {
+		env.Stat("probe_dead_peer_disconnect_after_busy_application")
+	}
+	m.closed = true
 }
 
 func summarize(r []RecvMsg) string {
